@@ -322,3 +322,62 @@ def lazy_positions(e, conds=()):
         else:
             for x in args:
                 yield from lazy_positions(x, conds)
+
+
+def world_features(trace):
+    """{feature: 1} of the reference forms and build schedules a trace holds
+    (summed over runs into the evidence: what the batch really exercised)."""
+    out = {}
+    world = trace.get('world')
+    if not isinstance(world, dict):
+        return out
+    names = {'u': 'reference_union', 'x': 'reference_intersection',
+             'w': 'whole_row_or_column', 'an': 'spill_reference',
+             'arr': 'array_literal', 'vn': 'volatile_defined_name',
+             'nm': 'defined_name_reference', 'un': 'undefined_name'}
+
+    def rec(e):
+        if not isinstance(e, list) or not e:
+            return
+        k = e[0]
+        if not isinstance(k, str):      # rows of an array literal
+            return
+        if k in names:
+            out[names[k]] = 1
+        if k == 'w':
+            out['whole_' + e[7]] = 1
+        if k == 'e' and len(e) > 2:
+            out['sheet_qualified_error_literal'] = 1
+        if k == 'r':
+            if (e[3], e[4]) != (e[5], e[6]):
+                out['multi_cell_reference'] = 1
+            return
+        for y in e[1:]:
+            if isinstance(y, list):
+                rec(y)
+
+    for c in world.get('cells', []):
+        if 'f' in c:
+            rec(c['f'])
+            if c['f'][0] == 'f' and c['f'][1] == 'SIMFAULT':
+                out['simfault_cell'] = 1
+        if 'arr' in c:
+            out['array_formula_cell'] = 1
+    if len(world.get('books', [])) > 1:
+        out['several_books'] = 1
+    if any(n.get('alias') is not None for n in world.get('names', [])):
+        out['chained_name'] = 1
+    scheds = trace.get('schedules') or (
+        [trace['schedule']] if trace.get('schedule') else [])
+    for s in scheds:
+        if s.get('split'):
+            out['two_stage_build'] = 1
+        if s.get('circular'):
+            out['circular_finish'] = 1
+        if s.get('extlinks'):
+            out['external_link_parts'] = 1
+        if s.get('kind') == 'file':
+            out['file_path_' + str(s.get('mode', 'loads'))] = 1
+        if s.get('kind') == 'dict':
+            out['dictionary_path'] = 1
+    return out
